@@ -382,6 +382,7 @@ SQL_STRINGS = [
     ('`a` > 0 AND `s` = "ab"', ("bin", "&", ("bin", ">", _A, ("py", 0)), ("bin", "==", _S, ("py", "ab")))),
     ("s = 'a' OR t = 'x\\'y'", ("bin", "|", ("bin", "==", _S, ("py", "a")), ("bin", "==", _T, ("py", "zz")))),
     ('NOT (`t` <=> "")', ("not", ("nse", _T, ("py", "")))),
+    ('a > 0 OR s = "a"', ("bin", "|", ("bin", ">", _A, ("py", 0)), ("bin", "==", _S, ("py", "a")))),
     ('a BETWEEN 0 AND 1 AND `s` IN ("a", "ab")', ("bin", "&", ("between", _A, ("py", 0), ("py", 1)), ("isin", _S, ["a", "ab"]))),
 ]
 
@@ -559,6 +560,13 @@ def run(ctx: core.Ctx):
             continue
         try:
             r["where"] = impl.where(sqltext.get(i, cols[i]))[0]     # a SQL-string predicate goes to where() as text
+            if i in sqltext:
+                # ... and as the SECOND filter after another where(): the rows must be those of first AND (predicate)
+                del impl.log[:]
+                first = impl.F.col("b").isNotNull()
+                rows2 = impl.df.where(first).where(sqltext[i]).select("id").collect()
+                r["where2"] = sorted(x[0] for x in rows2)
+                r["where2_sql"] = impl.log[-1] if impl.log else None
         except Exception as ex:
             r["where_err"] = err_class(ex)
         n_where += 1
@@ -639,6 +647,7 @@ def run(ctx: core.Ctx):
                 devs.append(("T3:impl-vs-model", desc))
         # -- implementation vs spec (the property)
         bad = None
+        chained_bad = False
         prim_sigs = []
         if "err" in r:
             if any(v != "#" for v in spec):
@@ -665,6 +674,15 @@ def run(ctx: core.Ctx):
                 if got != want:
                     bad = f"where keeps ids {got}, PySpark keeps {want}"
                 desc["where_ids"] = r["where"]
+                if bad is None and "where2" in r:
+                    has_b = {row[0] for row in T.ROWS if row[2] is not None}
+                    want2 = [i for i in want if i in has_b]
+                    got2 = [i for i in r["where2"] if i in dom]
+                    if got2 != want2:
+                        bad = (f"df.where(col('b').isNotNull()).where({sqltext[idx]!r}) keeps ids {got2}, "
+                               f"PySpark keeps {want2}")
+                        desc["chained_where_sql"] = r.get("where2_sql")
+                        chained_bad = True
             elif "where_err" in r:
                 bad = "where raises " + r["where_err"]
         if bad is None:
@@ -674,7 +692,8 @@ def run(ctx: core.Ctx):
         else:
             sigs = prim_sigs + signatures(t, markers)
             if src == "sqlstring":
-                sigs = ["C05/sql-string-predicate-differs-from-column-tree"]
+                sigs = ["C05/sql-string-predicate-as-second-where-regrouped" if chained_bad
+                        else "C05/sql-string-predicate-differs-from-column-tree"]
             if len(set(sigs)) == 1:
                 confirmed.add(sigs[0])
             devs.append(("DEV", (t, sigs, bad, desc)))
@@ -793,7 +812,7 @@ def prove_refutations(ctx) -> dict:
     return out
 
 
-PRIM_SIGS = ("C05/sql-string-predicate-differs-from-column-tree", "C05/cast-fraction-to-integer-rounds", "C05/substr-start-zero", "C05/substr-negative-start-before-string")
+PRIM_SIGS = ("C05/sql-string-predicate-differs-from-column-tree", "C05/sql-string-predicate-as-second-where-regrouped", "C05/cast-fraction-to-integer-rounds", "C05/substr-start-zero", "C05/substr-negative-start-before-string")
 
 
 def in_theorem_class(desc) -> bool:
